@@ -69,6 +69,7 @@ func (u *Unit) Run() {
 	}
 	st.pathID = 1
 	u.paths = 1
+	u.qfPrelude = "on"
 	u.work = append(u.work, st)
 	for len(u.work) > 0 {
 		s := u.work[len(u.work)-1]
@@ -115,7 +116,32 @@ func (u *Unit) jump(st *State, fr *Frame, to *ssa.BasicBlock) bool {
 	fr.prev = fr.block
 	fr.block = to
 	fr.idx = 0
+	u.coverBlock(st, fr, to)
 	return true
+}
+
+// coverBlock records reachability candidates for every basic block of the function under
+// contract (vacuity guard: a block that no satisfiable path reaches is reported).
+func (u *Unit) coverBlock(st *State, fr *Frame, b *ssa.BasicBlock) {
+	if st.discover != nil || st.dead || len(st.frames) != 1 {
+		return
+	}
+	if u.blockCover == nil {
+		u.blockCover = map[int]int{}
+	}
+	if u.blockCover[b.Index] >= 60 {
+		return
+	}
+	u.blockCover[b.Index]++
+	pos := token.NoPos
+	for _, in := range b.Instrs {
+		if p := in.Pos(); p.IsValid() {
+			pos = p
+			break
+		}
+	}
+	u.obls = append(u.obls, &Obligation{Name: fmt.Sprintf("%s/cover-block#%d", u.name, b.Index), Kind: "cover", Func: u.name, Props: u.contract.Props,
+		Pos: u.eng.posStr(pos), Goal: fmt.Sprintf("basic block %d (%s) is reachable under the contract's assumptions", b.Index, b.Comment), Query: st.pathText() + "(check-sat)\n", Cover: true, PathID: st.pathID})
 }
 
 // exec executes one instruction; returns false when the path ends.
@@ -248,10 +274,13 @@ func (u *Unit) exec(st *State, fr *Frame, instr ssa.Instruction) bool {
 		other := u.fork(st)
 		other.assume(sNot(c))
 		ofr := other.top()
-		if u.jump(other, ofr, fb) {
+		if u.feasible(other) && u.jump(other, ofr, fb) {
 			u.work = append(u.work, other)
 		}
 		st.assume(c)
+		if !u.feasible(st) {
+			return false
+		}
 		return u.jump(st, fr, tb)
 	case *ssa.Return:
 		return u.execReturn(st, fr, in)
@@ -306,7 +335,7 @@ func (u *Unit) execAlloc(st *State, fr *Frame, in *ssa.Alloc) {
 			comp := u.compName("E", at.Elem(), l.Suffix)
 			as := u.compSort("E", l.Sort)
 			h := u.heapGet(st, comp, as)
-			u.heapSet(st, comp, as, fmt.Sprintf("(store %s %s ((as const (Array Int %s)) %s))", h, r, l.Sort, zeroTerm(l.Sort)))
+			u.heapSetAt(st, comp, as, fmt.Sprintf("(store %s %s ((as const (Array Int %s)) %s))", h, r, l.Sort, zeroTerm(l.Sort)), r)
 		}
 		fr.regs[in] = Val{T: in.Type(), Terms: []Term{r}, Ptr: &Ptr{Kind: PObj, Ref: r, Root: et}}
 		return
@@ -315,7 +344,7 @@ func (u *Unit) execAlloc(st *State, fr *Frame, in *ssa.Alloc) {
 	locs, _ := u.locsOf(p)
 	for _, l := range locs {
 		h := u.heapGet(st, l.comp, l.arrSort)
-		u.heapSet(st, l.comp, l.arrSort, fmt.Sprintf("(store %s %s %s)", h, r, zeroTerm(l.sort)))
+		u.heapSetAt(st, l.comp, l.arrSort, fmt.Sprintf("(store %s %s %s)", h, r, zeroTerm(l.sort)), r)
 	}
 	fr.regs[in] = Val{T: in.Type(), Terms: []Term{r}, Ptr: p}
 }
@@ -771,7 +800,7 @@ func (u *Unit) execMakeSlice(st *State, fr *Frame, in *ssa.MakeSlice) {
 		comp := u.compName("E", et, lf.Suffix)
 		as := u.compSort("E", lf.Sort)
 		h := u.heapGet(st, comp, as)
-		u.heapSet(st, comp, as, fmt.Sprintf("(store %s %s ((as const (Array Int %s)) %s))", h, r, lf.Sort, zeroTerm(lf.Sort)))
+		u.heapSetAt(st, comp, as, fmt.Sprintf("(store %s %s ((as const (Array Int %s)) %s))", h, r, lf.Sort, zeroTerm(lf.Sort)), r)
 	}
 	fr.regs[in] = Val{T: in.Type(), Terms: []Term{r, "0", l, c}}
 }
@@ -780,4 +809,23 @@ func (u *Unit) execMakeSlice(st *State, fr *Frame, in *ssa.MakeSlice) {
 func (u *Unit) elemLocs(et types.Type, base, idx Term) []loc {
 	locs, _ := u.locsOf(&Ptr{Kind: PElem, Ref: base, Idx: idx, Root: et})
 	return locs
+}
+
+// feasible prunes syntactically possible but contradictory branches once a function has
+// many paths (quantifier-free check; "unknown" keeps the path).
+func (u *Unit) feasible(st *State) bool {
+	if st.discover != nil || u.paths < 24 || st.dead {
+		return !st.dead
+	}
+	if u.qfPrelude == "" {
+		return true
+	}
+	q := u.eng.PreludeQF() + stripQuantified(st.pathText()) + "(check-sat)\n"
+	r := runSolver(solvers[0], q, 2000, false)
+	u.pruneCalls++
+	if r.Verdict == "unsat" {
+		u.pruned++
+		return false
+	}
+	return true
 }
